@@ -49,12 +49,12 @@ def dimObs : Ty → Except Err Ty
       | .ok r => .ok (⟨o.name, 0⟩ :: r)
 
 /-- monoidal.py:218-222 followed by `PRO(len(old))`. -/
-def proUpgrade (t : Ty) : Except Err Ty :=
+def proUpgradeTy (t : Ty) : Except Err Ty :=
   if t.all (fun o => o.name == "1") then .ok (t.map fun _ => ⟨"1", 0⟩) else .error .type
 
 def TyClass.upgrade : TyClass → Ty → Except Err Ty
   | .ty, t => .ok t
-  | .pro, t => proUpgrade t
+  | .pro, t => proUpgradeTy t
   | .dim, t => dimObs t
 
 /-- `t @ u` for `t` of class `c` (monoidal.py:126-130). -/
